@@ -259,6 +259,40 @@ def gen_watch():
     return {"serialized": serialized, "debounce": debounce, "initial": initial, "recovers": recovers}
 
 
+DOC_ALIASES = ["byte", "int", "uint", "long", "ulong", "float", "double", "complexfloat", "complexdouble"]
+
+
+def observed_aliases(ctx):
+    """The primitive alias table as the current yardl RESOLVES it (not as types.go spells it): a record with one field per
+    candidate alias name goes through the real front end and the JSON model says what each name means.  Candidates: the
+    documented aliases plus every lower-case string literal of types.go that is not a primitive name.  Names the front end
+    does not know are left out (Props/C13.v compares the table with the documented one)."""
+    import subprocess
+    import tempfile
+    ty = open(os.path.join(REPO, "tooling/pkg/dsl/types.go")).read()
+    cands = list(DOC_ALIASES)
+    for lit in re.findall(r'"([a-z][a-z0-9]*)=?"', ty):
+        if lit not in cands and lit not in ORDER:
+            cands.append(lit)
+    out = []
+    with tempfile.TemporaryDirectory(prefix="yv-alias-") as d:
+        os.makedirs(d + "/m")
+        open(d + "/m/_package.yml", "w").write("namespace: Al\njson:\n  outputDir: ../j\n")
+        for name in cands:
+            open(d + "/m/a.yml", "w").write("R: !record\n  fields:\n    f: %s\n" % name)
+            p = subprocess.run([ctx.yardl, "generate"], cwd=d + "/m", capture_output=True, text=True, timeout=120)
+            if p.returncode != 0:
+                continue
+            try:
+                m = json.load(open(d + "/j/model.json"))
+                t = m["namespaces"][0]["types"][0]["record"]["fields"][0]["type"]
+            except Exception:  # noqa: BLE001
+                continue
+            if isinstance(t, str) and t in ORDER and t != name:
+                out.append((name, t))
+    return out
+
+
 def regenerate(ctx):
     gen_watch()
     gen_phases()
@@ -289,11 +323,7 @@ def regenerate(ctx):
           "Definition json_kind_decl (p : prim) : N :=", "  match p with"]
     for a in ORDER:
         L.append("  | %s => %s" % (COQ_PRIM[a], t["json_kind"][a]))
-    ty = open(os.path.join(REPO, "tooling/pkg/dsl/types.go")).read()
-    consts = dict(re.findall(r'^\t(\w+)\s+= "(\w+)"$', ty, re.M))
-    aliases = [(a, consts[c]) for a, c in re.findall(r'"(\w+)="\+(\w+),', ty)]
-    if not aliases:
-        raise RuntimeError("gentables: cannot find the primitive alias table in types.go")
+    aliases = observed_aliases(ctx)
     L += ["  end.", "", "(* GetJsonDataType on one representative of every other shape of type; a panic or a missing entry is kind 0 *)"]
     shapes = t.get("json_kind_shapes", {})
     for sh in ("enum", "flags", "record", "generic_param", "vector", "fixed_vector", "fixed_array", "array", "dyn_array",
